@@ -92,7 +92,9 @@ impl<P: SWUConfig> MapToCurve<Projective<P>> for SWUMap<P> {
         );
         let y1: P::BaseField = {
             gx1 = num_gx1 / div3;
-            if gx1.legendre().is_qr() {
+            // RFC 9380: is_square(0) is true, so gx1 == 0 selects x1 (and y = 0);
+            // `legendre().is_qr()` is false for zero.
+            if !gx1.legendre().is_qnr() {
                 gx1_square = true;
                 gx1.sqrt()
                     .expect("We have checked that gx1 is a quadratic residue. Q.E.D")
